@@ -798,13 +798,28 @@ class BaseRepo:
 
         if determine_wants is None:
             determine_wants = target.object_store.determine_wants_all
+        graph_walker = target.get_graph_walker()
+        # The shallow boundary of the target may only move once the objects
+        # the new boundary requires are in place: if we die in between, no
+        # ref may be left whose history runs into missing parents.
+        pending_shallow: list[tuple[set[ObjectID], set[ObjectID]]] = []
+        apply_shallow = getattr(graph_walker, "update_shallow", None)
+        if apply_shallow is not None:
+            graph_walker.update_shallow = (  # type: ignore[attr-defined]
+                lambda new_shallow, unshallow: pending_shallow.append(
+                    (set(new_shallow or ()), set(unshallow or ()))
+                )
+            )
         count, pack_data = self.fetch_pack_data(
             determine_wants,
-            target.get_graph_walker(),
+            graph_walker,
             progress=progress,
             depth=depth,
         )
         target.object_store.add_pack_data(count, pack_data, progress)
+        for new_shallow, unshallow in pending_shallow:
+            assert apply_shallow is not None
+            apply_shallow(new_shallow, unshallow)
         return self.get_refs()
 
     def fetch_pack_data(
